@@ -53,8 +53,9 @@ ssize_t mpt_buffer_cut(MPT_STRUCT(buffer) *buf, size_t off, size_t len)
 			return MPT_ERROR(BadArgument);
 		}
 		if ((fini = traits->fini)) {
-			size_t i;
-			for (i = 0; i < len; i += size) {
+			/* zero length removes all data after offset */
+			size_t i, end = len ? len : (buf->_used - off);
+			for (i = 0; i < end; i += size) {
 				fini(pos + i);
 			}
 		}
